@@ -25,7 +25,7 @@ tvars == <<tid, l, s, phase, k, v>>
 \* hostOnlyKey, staleExpiry, pathAlias, domainCase, epochExpires, badMaxAge
 \* Deviations repaired in /repo by `fix:` commits are no longer admissible explanations
 \* (hostOnlyKey, staleExpiry, domainCase); pathAlias, epochExpires, badMaxAge are present in the code.
-StillPresent == <<FALSE, FALSE, TRUE, FALSE, TRUE, TRUE>>
+StillPresent == <<FALSE, FALSE, TRUE, FALSE, FALSE, FALSE>>
 NoDevs == <<FALSE, FALSE, FALSE, FALSE, FALSE, FALSE>>
 AllSubsets == <<
     <<FALSE, FALSE, TRUE, FALSE, FALSE, FALSE>>,
